@@ -367,6 +367,12 @@ def run_c13(tier, seed):
         for order in interleavings([3, 3]):
             add(pw, [base0, base1], order, False, desc="[systematic] ")
         if pw:
+            # the password split into a user name and a password (every split): refused, also after ANOTHER connection has
+            # authenticated with the exact password (what one connection proved is not a credential for the next)
+            for k_ in range(0, len(pw) + 1):
+                s0 = [("AUTH", [pw]), ("GET", [b"a"])]
+                s1 = [("AUTH", [pw[:k_], pw[k_:]]) if k_ else ("AUTH", [b"", b""]), ("GET", [b"a"]), ("SET", [b"b", b"1"])]
+                add(pw, [s0, s1], [0, 0, 1, 1, 1], False, desc="[split password after another connection's AUTH] ")
             # a user name presented on one connection (refused there) must not colour the other connection's AUTH <password>
             u0 = [("AUTH", [b"alice", b"wrong"]), ("GET", [b"a"]), ("AUTH", [b"alice", pw])]
             u1 = [("AUTH", [pw]), ("SELECT", [b"2"]), ("SET", [b"b", b"2"])]
